@@ -313,6 +313,8 @@ type c11Any struct {
 	T *c11Tbl     `json:"tables,omitempty"`
 	F *c11Flush   `json:"flush,omitempty"`
 	C *c11Compact `json:"compaction,omitempty"`
+	D *c11DevFull `json:"devfull,omitempty"`
+	R *c11Recover `json:"recovery,omitempty"`
 }
 
 func (c *c11Any) inner() Case {
@@ -323,6 +325,10 @@ func (c *c11Any) inner() Case {
 		return c.T
 	case c.C != nil:
 		return c.C
+	case c.D != nil:
+		return c.D
+	case c.R != nil:
+		return c.R
 	}
 	return c.F
 }
@@ -392,6 +398,19 @@ func genC11All(r *rand.Rand, tier string) []Case {
 		}
 		out = append(out, &c11Any{C: c})
 	}
+	// one table file that cannot be written at all; recovery under a file size limit followed by a restart
+	for i := 0; i < nc; i++ {
+		var kvs []tblKV
+		for k := 0; k < 2+r.Intn(5); k++ {
+			kvs = append(kvs, tblKV{K: []byte(fmt.Sprintf("k%02d", k)), V: []byte(fmt.Sprintf("value-%d", k)), Nil: r.Intn(5) == 0})
+		}
+		out = append(out, &c11Any{D: &c11DevFull{KVs: kvs}})
+		rc := &c11Recover{NKeys: 2 + r.Intn(4), ValLen: 200 + r.Intn(2000)}
+		for _, lim := range []int{0, 8, 20, 60, 150, 400, 1500, 5000} {
+			rc.Limits = append(rc.Limits, lim+r.Intn(10))
+		}
+		out = append(out, &c11Any{R: rc})
+	}
 	return out
 }
 
@@ -410,6 +429,9 @@ func (c *c11Any) Evals() int {
 	}
 	if c.C != nil {
 		return c.C.Evals()
+	}
+	if c.R != nil {
+		return c.R.Evals()
 	}
 	return 1
 }
